@@ -139,7 +139,23 @@ func (c18) Generate(r *sim.Rand, tier string) *sim.Scenario {
 	if r.Bool(0.5) {
 		sc.Cfg["reuseinit"] = 1
 	}
-	if r.Bool(0.01) {
+	if r.Bool(0.002) {
+		// a very large pool of one normal configuration (the far tail needs
+		// hundreds of thousands of draws to show)
+		f := fs[0]
+		if f.kind != "normal" && f.kind != "randn" && f.kind != "henormal" && f.kind != "xaviernormal" {
+			f.kind = []string{"normal", "randn", "henormal", "xaviernormal"}[r.Intn(4)]
+			f.f, f.nilc = c18params(r, f.kind)
+		}
+		for k, n := 0, r.Range(16, 22); k < n; k++ {
+			st := sim.Step{C: 0, Op: "draw", Out: -1, Tag: f.kind, F: cpF(f.f), B: f.nilc, I: []int{r.Range(19000, 21000)}}
+			if f.kind == "randu" || f.kind == "randn" {
+				st.B = f.trk
+			}
+			sc.Steps = append(sc.Steps, st)
+		}
+		f.left = 0
+	} else if r.Bool(0.01) {
 		// a long-lived initializer / constructor: a few thousand small calls with
 		// one configuration before the ordinary workload (state that only matters
 		// after many calls: counters, periodic re-derivation of the stream, ...)
@@ -644,6 +660,22 @@ func (prop c18) Execute(sc *sim.Scenario) *sim.Outcome {
 		if se := math.Sqrt((mu4 - 1) / fn); math.Abs(va-1) > 7*se {
 			out.Fail("variance", "%s: sample variance is %v times the configured one (7 standard errors = +-%v)", desc, va, 7*se)
 			return fin()
+		}
+		// far tail of a large normal pool: among n >= 300000 standardised draws
+		// about n * 6.3e-5 lie beyond 4 (19 or more expected; none at all has
+		// probability below 1e-8)
+		if !pl.unif && n >= 300000 {
+			far := 0
+			for _, v := range pl.z {
+				if math.Abs(v) > 4 {
+					far++
+				}
+			}
+			out.Probes["normal-pools-of-300000-or-more"]++
+			if far == 0 {
+				out.Fail("normal-tail-missing", "%s: none of the %d draws lies beyond 4 standard deviations from the mean; about %.0f are expected", desc, n, fn*6.334e-5)
+				return fin()
+			}
 		}
 		// Kolmogorov-Smirnov
 		s := append([]float64{}, pl.z...)
